@@ -17,7 +17,7 @@ ASSUMPTIONS = [
 ]
 TRUSTED = ["UFOs are written with fontTools.ufoLib directly; the GLIF scanners of ufoLib (getUnicodes, getComponentReferences, "
            "getImageReferences) and defcon's _fetchHasOutlineData are exercised, not modelled"]
-JUDGED = ("keys", "comps", "images", "outlines", "uni")
+JUDGED = ("keys", "comps", "images", "outlines", "uni", "saved")
 PROP = "C07"
 
 
